@@ -1,1 +1,437 @@
-// placeholder
+// C26 (array arms) and the data-structure part of C01: one real step() on arrays,
+// structs and variants with symbolic contents.
+
+// Array of symbolic length <= 3 (capacity 4, so no reallocation happens while building)
+// holding symbolic ints.  Returns (value, element payloads, length).
+pub(super) fn sym_array(t: &mut VmGreenThread, maxlen: usize) -> (Value, [u64; 3], usize) {
+    let len: usize = kani::any();
+    kani::assume(len <= maxlen && len <= 3);
+    let e: [u64; 3] = kani::any();
+    let mut v: Vec<Value> = Vec::with_capacity(4);
+    if len > 0 { v.push(Value(e[0], ValueTag::Int)); }
+    if len > 1 { v.push(Value(e[1], ValueTag::Int)); }
+    if len > 2 { v.push(Value(e[2], ValueTag::Int)); }
+    (Value::from(ArrayObject::new(v, t)), e, len)
+}
+pub(super) fn fixed_array(t: &mut VmGreenThread, len: usize, cap: usize) -> (Value, [u64; 3]) {
+    let e: [u64; 3] = kani::any();
+    let mut v: Vec<Value> = Vec::with_capacity(cap);
+    let mut k = 0;
+    while k < len {
+        v.push(Value(e[k], ValueTag::Int));
+        k += 1;
+    }
+    (Value::from(ArrayObject::new(v, t)), e)
+}
+pub(super) fn arr_ref<'a>(v: Value) -> &'a ArrayObject {
+    unsafe { &*(v.0 as *const ArrayObject) }
+}
+
+macro_rules! get_index_harness {
+    ($name:ident, $m1:expr, $m2:expr) => {
+        vm_harness! {
+            #[kani::unwind(9)]
+            fn $name() {
+                let (o1, o2) = (OFF_R1, OFF_R2);
+                let mut t = mk_thread(vec![Instr::GetIndex(enc($m1, o1), enc($m2, o2)), Instr::Stop], vec![], vec![]);
+                let (arr, e, len) = sym_array(&mut t, 3);
+                let idx: i64 = kani::any();
+                push_frame(&mut t, ValueTag::Int);
+                if $m1 == O { t.value_stack[slot(o1)] = arr; }
+                if $m2 == O { t.value_stack[slot(o2)] = Value::from(idx); }
+                if $m1 == T { t.value_stack.push(arr); }
+                if $m2 == T { t.value_stack.push(Value::from(idx)); }
+                let mut model = t.value_stack.clone();
+                let _ = fetch(&mut model, $m2, o2);
+                let _ = fetch(&mut model, $m1, o1);
+                let exp = if idx < 0 || idx >= len as i64 {
+                    Exp::Err(EK_OOB)
+                } else {
+                    Exp::Val(Value(e[idx as usize], ValueTag::Int))
+                };
+                check_step(&mut t, model, T, 0, exp, true);
+                assert!(arr_ref(arr).data.len() == len, "array unchanged by a read");
+                std::mem::forget(t);
+            }
+        }
+    };
+}
+get_index_harness!(c26_get_index_tt, T, T);
+get_index_harness!(c26_get_index_to, T, O);
+get_index_harness!(c26_get_index_oo, O, O);
+
+macro_rules! set_index_harness {
+    ($name:ident, $m1:expr, $m2:expr) => {
+        vm_harness! {
+            #[kani::unwind(9)]
+            fn $name() {
+                let (o1, o2) = (OFF_R1, OFF_R2);
+                let mut t = mk_thread(vec![Instr::SetIndex(enc($m1, o1), enc($m2, o2)), Instr::Stop], vec![], vec![]);
+                let (arr, e, len) = sym_array(&mut t, 3);
+                let idx: i64 = kani::any();
+                let rv = sym_val(ValueTag::Int);
+                push_frame(&mut t, ValueTag::Int);
+                // operand order on the stack: array, index, value
+                if $m1 == O { t.value_stack[slot(o1)] = Value::from(idx); }
+                if $m2 == O { t.value_stack[slot(o2)] = rv; }
+                t.value_stack.push(arr);
+                if $m1 == T { t.value_stack.push(Value::from(idx)); }
+                if $m2 == T { t.value_stack.push(rv); }
+                let mut model = t.value_stack.clone();
+                let _ = fetch(&mut model, $m2, o2);
+                let _ = fetch(&mut model, $m1, o1);
+                model.pop();
+                t.pc.0 = 0;
+                let cont = t.step();
+                if idx < 0 || idx >= len as i64 {
+                    assert!(!cont && err_code(&t) == EK_OOB, "out-of-range store is an ArrayOutOfBounds error");
+                    kani::cover!(true, "req: error outcome reachable");
+                    kani::cover!(idx == len as i64, "req: one past the end");
+                } else {
+                    assert!(cont && t.error.is_none() && t.pc.0 == 1);
+                    assert!(same_stack(&t.value_stack, &model), "three operands consumed, nothing pushed");
+                    let d = &arr_ref(arr).data;
+                    assert!(d.len() == len, "length unchanged");
+                    let mut k = 0;
+                    while k < 3 {
+                        if k < len {
+                            let want = if k as i64 == idx { rv } else { Value(e[k], ValueTag::Int) };
+                            assert!(d[k].0 == want.0 && d[k].1 == want.1, "exactly the addressed element changes");
+                        }
+                        k += 1;
+                    }
+                    kani::cover!(true, "req: success outcome reachable");
+                }
+                std::mem::forget(t);
+            }
+        }
+    };
+}
+set_index_harness!(c26_set_index_tt, T, T);
+set_index_harness!(c26_set_index_to, T, O);
+set_index_harness!(c26_set_index_oo, O, O);
+
+macro_rules! array_len_harness {
+    ($name:ident, $dm:expr, $m1:expr) => {
+        vm_harness! {
+            #[kani::unwind(9)]
+            fn $name() {
+                let (od, o1) = (OFF_DEST, OFF_R1);
+                let mut t = mk_thread(vec![Instr::ArrayLength(enc($dm, od), enc($m1, o1)), Instr::Stop], vec![], vec![]);
+                let (arr, _e, len) = sym_array(&mut t, 3);
+                push_frame(&mut t, ValueTag::Int);
+                if $m1 == O { t.value_stack[slot(o1)] = arr; } else { t.value_stack.push(arr); }
+                let mut model = t.value_stack.clone();
+                let _ = fetch(&mut model, $m1, o1);
+                check_step(&mut t, model, $dm, od, Exp::Val(Value::from(len as i64)), false);
+                std::mem::forget(t);
+            }
+        }
+    };
+}
+array_len_harness!(c26_len_tt, T, T);
+array_len_harness!(c26_len_oo, O, O);
+
+// pop: concrete length per harness (0, 1, 3), symbolic contents
+macro_rules! array_pop_harness {
+    ($name:ident, $len:expr, $dm:expr, $m1:expr) => {
+        vm_harness! {
+            #[kani::unwind(9)]
+            fn $name() {
+                let (od, o1) = (OFF_DEST, OFF_R1);
+                let mut t = mk_thread(vec![Instr::ArrayPop(enc($dm, od), enc($m1, o1)), Instr::Stop], vec![], vec![]);
+                let (arr, e) = fixed_array(&mut t, $len, 4);
+                push_frame(&mut t, ValueTag::Int);
+                if $m1 == O { t.value_stack[slot(o1)] = arr; } else { t.value_stack.push(arr); }
+                let mut model = t.value_stack.clone();
+                let _ = fetch(&mut model, $m1, o1);
+                let exp = if $len == 0 { Exp::Err(EK_OOB) } else { Exp::Val(Value(e[$len - 1], ValueTag::Int)) };
+                check_step(&mut t, model, $dm, od, exp, $len == 0);
+                if $len > 0 {
+                    let d = &arr_ref(arr).data;
+                    assert!(d.len() == $len - 1, "array shrank by one");
+                    let mut k = 0;
+                    while k + 1 < $len {
+                        assert!(d[k].0 == e[k] && d[k].1 == ValueTag::Int, "remaining elements unchanged");
+                        k += 1;
+                    }
+                }
+                std::mem::forget(t);
+            }
+        }
+    };
+}
+array_pop_harness!(c26_pop_len0_tt, 0, T, T);
+array_pop_harness!(c26_pop_len1_tt, 1, T, T);
+array_pop_harness!(c26_pop_len3_oo, 3, O, O);
+array_pop_harness!(c26_pop_len0_oo, 0, O, O);
+
+// push: concrete length/capacity per harness (growth and no-growth), symbolic contents
+macro_rules! array_push_harness {
+    ($name:ident, $len:expr, $cap:expr, $m1:expr, $m2:expr) => {
+        vm_harness! {
+            #[kani::unwind(9)]
+            fn $name() {
+                let (o1, o2) = (OFF_R1, OFF_R2);
+                let mut t = mk_thread(vec![Instr::ArrayPush(enc($m1, o1), enc($m2, o2)), Instr::Stop], vec![], vec![]);
+                let (arr, e) = fixed_array(&mut t, $len, $cap);
+                let rv = sym_val(ValueTag::Int);
+                push_frame(&mut t, ValueTag::Int);
+                if $m1 == O { t.value_stack[slot(o1)] = arr; }
+                if $m2 == O { t.value_stack[slot(o2)] = rv; }
+                if $m1 == T { t.value_stack.push(arr); }
+                if $m2 == T { t.value_stack.push(rv); }
+                let mut model = t.value_stack.clone();
+                let _ = fetch(&mut model, $m2, o2);
+                let _ = fetch(&mut model, $m1, o1);
+                let cap_before = arr_ref(arr).data.capacity();
+                let heap_before = t.heap_size;
+                t.pc.0 = 0;
+                let cont = t.step();
+                assert!(cont && t.error.is_none() && t.pc.0 == 1);
+                assert!(same_stack(&t.value_stack, &model), "operands consumed, nothing pushed");
+                let d = &arr_ref(arr).data;
+                assert!(d.len() == $len + 1, "array grew by one");
+                assert!(d[$len].0 == rv.0 && d[$len].1 == rv.1, "pushed value is the last element");
+                let mut k = 0;
+                while k < $len {
+                    assert!(d[k].0 == e[k] && d[k].1 == ValueTag::Int, "existing elements unchanged");
+                    k += 1;
+                }
+                // C07 accounting: heap_size follows the capacity change
+                assert!(t.heap_size == heap_before + (d.capacity() - cap_before) * size_of::<Value>(), "heap accounting follows capacity growth");
+                kani::cover!(d.capacity() > cap_before, "info: push reallocated");
+                kani::cover!(true, "req: success outcome reachable");
+                std::mem::forget(t);
+            }
+        }
+    };
+}
+array_push_harness!(c26_push_len0_tt, 0, 0, T, T);
+array_push_harness!(c26_push_len2_cap2_tt, 2, 2, T, T);
+array_push_harness!(c26_push_len1_cap4_to, 1, 4, T, O);
+array_push_harness!(c26_push_len1_cap4_oo, 1, 4, O, O);
+
+vm_harness! {
+    #[kani::unwind(9)]
+    fn c26_push_int_imm() {
+        let c: [i64; 3] = kani::any();
+        let mut t = mk_thread(vec![Instr::ArrayPushIntImm(enc(T, 0), 2), Instr::Stop], vec![c[0], c[1], c[2]], vec![]);
+        let (arr, e) = fixed_array(&mut t, 1, 4);
+        push_frame(&mut t, ValueTag::Int);
+        t.value_stack.push(arr);
+        let mut model = t.value_stack.clone();
+        model.pop();
+        t.pc.0 = 0;
+        let cont = t.step();
+        assert!(cont && t.error.is_none() && t.pc.0 == 1);
+        assert!(same_stack(&t.value_stack, &model));
+        let d = &arr_ref(arr).data;
+        assert!(d.len() == 2 && d[0].0 == e[0] && d[1].0 == c[2] as u64 && d[1].1 == ValueTag::Int, "constant appended");
+        kani::cover!(true, "req: success outcome reachable");
+        std::mem::forget(t);
+    }
+}
+
+// construct / deconstruct arrays and structs: n concrete (0..3), contents symbolic
+macro_rules! construct_harness {
+    ($name:ident, $variant:ident, $n:expr, $is_array:expr) => {
+        vm_harness! {
+            #[kani::unwind(9)]
+            fn $name() {
+                let mut t = mk_thread(vec![Instr::$variant($n), Instr::Stop], vec![], vec![]);
+                push_frame(&mut t, ValueTag::Int);
+                let e: [u64; 3] = kani::any();
+                let mut k = 0;
+                while k < $n {
+                    t.value_stack.push(Value(e[k as usize], ValueTag::Int));
+                    k += 1;
+                }
+                let heap_before = t.heap_list.len();
+                t.pc.0 = 0;
+                let cont = t.step();
+                assert!(cont && t.error.is_none() && t.pc.0 == 1);
+                assert!(t.value_stack.len() == FRAME + 1, "n operands replaced by one object");
+                assert!(t.heap_list.len() == heap_before + 1, "one allocation registered with the collector");
+                let r = t.value_stack[FRAME];
+                let fields: &[Value] = if $is_array {
+                    assert!(r.1 == ValueTag::Array);
+                    &arr_ref(r).data
+                } else {
+                    assert!(r.1 == ValueTag::Struct);
+                    unsafe { (&*(r.0 as *const StructObject)).get_fields() }
+                };
+                assert!(fields.len() == $n as usize, "arity");
+                let mut k = 0;
+                while k < $n as usize {
+                    assert!(fields[k].0 == e[k] && fields[k].1 == ValueTag::Int, "fields in push order");
+                    k += 1;
+                }
+                kani::cover!(true, "req: success outcome reachable");
+                std::mem::forget(t);
+            }
+        }
+    };
+}
+construct_harness!(c26_construct_array_0, ConstructArray, 0u16, true);
+construct_harness!(c26_construct_array_3, ConstructArray, 3u16, true);
+construct_harness!(c01_construct_struct_0, ConstructStruct, 0u16, false);
+construct_harness!(c01_construct_struct_3, ConstructStruct, 3u16, false);
+construct_harness!(c01_make_closure_2, MakeClosure, 2u16, false); // closure = struct of ncaptures + 1 fields
+
+vm_harness! {
+    #[kani::unwind(9)]
+    fn c01_make_closure_arity() {
+        // MakeClosure(n) builds a struct of n + 1 fields (code address + n captures)
+        let mut t = mk_thread(vec![Instr::MakeClosure(2), Instr::Stop], vec![], vec![]);
+        push_frame(&mut t, ValueTag::Int);
+        let e: [u64; 3] = kani::any();
+        t.value_stack.push(Value(e[0], ValueTag::Int));
+        t.value_stack.push(Value(e[1], ValueTag::Int));
+        t.value_stack.push(Value(e[2] as u32 as u64, ValueTag::Addr));
+        t.pc.0 = 0;
+        let cont = t.step();
+        assert!(cont && t.value_stack.len() == FRAME + 1);
+        let r = t.value_stack[FRAME];
+        assert!(r.1 == ValueTag::Struct);
+        let f = unsafe { (&*(r.0 as *const StructObject)).get_fields() };
+        assert!(f.len() == 3 && f[0].0 == e[0] && f[1].0 == e[1] && f[2].1 == ValueTag::Addr);
+        kani::cover!(true, "req: success outcome reachable");
+        std::mem::forget(t);
+    }
+}
+
+macro_rules! deconstruct_harness {
+    ($name:ident, $variant:ident, $n:expr, $is_array:expr) => {
+        vm_harness! {
+            #[kani::unwind(9)]
+            fn $name() {
+                let mut t = mk_thread(vec![Instr::$variant, Instr::Stop], vec![], vec![]);
+                let e: [u64; 3] = kani::any();
+                let mut v: Vec<Value> = Vec::with_capacity(4);
+                let mut k = 0;
+                while k < $n {
+                    v.push(Value(e[k], ValueTag::Int));
+                    k += 1;
+                }
+                let obj: Value = if $is_array { Value::from(ArrayObject::new(v, &mut t)) } else { Value::from(StructObject::new(v, &mut t)) };
+                push_frame(&mut t, ValueTag::Int);
+                t.value_stack.push(obj);
+                t.pc.0 = 0;
+                let cont = t.step();
+                assert!(cont && t.error.is_none() && t.pc.0 == 1);
+                assert!(t.value_stack.len() == FRAME + $n, "object replaced by its n components");
+                // components are pushed in reverse so that the first field ends on top
+                let mut k = 0;
+                while k < $n {
+                    let got = t.value_stack[FRAME + $n - 1 - k];
+                    assert!(got.0 == e[k] && got.1 == ValueTag::Int, "first component on top of the stack");
+                    k += 1;
+                }
+                kani::cover!(true, "req: success outcome reachable");
+                std::mem::forget(t);
+            }
+        }
+    };
+}
+deconstruct_harness!(c26_deconstruct_array_2, DeconstructArray, 2usize, true);
+deconstruct_harness!(c26_deconstruct_array_0, DeconstructArray, 0usize, true);
+deconstruct_harness!(c01_deconstruct_struct_3, DeconstructStruct, 3usize, false);
+
+// GetField / SetField on a 3-field struct, concrete field index per harness
+macro_rules! field_harness {
+    ($gname:ident, $sname:ident, $idx:expr, $m:expr) => {
+        vm_harness! {
+            #[kani::unwind(9)]
+            fn $gname() {
+                let o = OFF_R1;
+                let mut t = mk_thread(vec![Instr::GetField($idx, enc($m, o)), Instr::Stop], vec![], vec![]);
+                let e: [u64; 3] = kani::any();
+                let s = StructObject::new(vec![Value(e[0], ValueTag::Int), Value(e[1], ValueTag::Float), Value(e[2], ValueTag::Int)], &mut t);
+                push_frame(&mut t, ValueTag::Int);
+                if $m == O { t.value_stack[slot(o)] = Value::from(s); } else { t.value_stack.push(Value::from(s)); }
+                let mut model = t.value_stack.clone();
+                let _ = fetch(&mut model, $m, o);
+                let tag = if $idx == 1 { ValueTag::Float } else { ValueTag::Int };
+                check_step(&mut t, model, T, 0, Exp::Val(Value(e[$idx as usize], tag)), false);
+                std::mem::forget(t);
+            }
+        }
+        vm_harness! {
+            #[kani::unwind(9)]
+            fn $sname() {
+                let o = OFF_R1;
+                let mut t = mk_thread(vec![Instr::SetField($idx, enc($m, o)), Instr::Stop], vec![], vec![]);
+                let e: [u64; 3] = kani::any();
+                let s = StructObject::new(vec![Value(e[0], ValueTag::Int), Value(e[1], ValueTag::Int), Value(e[2], ValueTag::Int)], &mut t);
+                let rv = sym_val(ValueTag::Int);
+                push_frame(&mut t, ValueTag::Int);
+                // stack order: value, then struct
+                t.value_stack.push(rv);
+                if $m == O { t.value_stack[slot(o)] = Value::from(s); } else { t.value_stack.push(Value::from(s)); }
+                let mut model = t.value_stack.clone();
+                let _ = fetch(&mut model, $m, o);
+                model.pop();
+                t.pc.0 = 0;
+                let cont = t.step();
+                assert!(cont && t.error.is_none() && t.pc.0 == 1);
+                assert!(same_stack(&t.value_stack, &model), "struct and value consumed");
+                let f = unsafe { (&*s).get_fields() };
+                let mut k = 0;
+                while k < 3 {
+                    let want = if k == $idx as usize { rv.0 } else { e[k] };
+                    assert!(f[k].0 == want && f[k].1 == ValueTag::Int, "exactly the addressed field changes");
+                    k += 1;
+                }
+                kani::cover!(true, "req: success outcome reachable");
+                std::mem::forget(t);
+            }
+        }
+    };
+}
+field_harness!(c01_get_field_0_t, c01_set_field_0_t, 0u16, T);
+field_harness!(c01_get_field_2_o, c01_set_field_2_o, 2u16, O);
+field_harness!(c01_get_field_1_t, c01_set_field_1_t, 1u16, T);
+
+// variants: symbolic tag and payload
+vm_harness! {
+    #[kani::unwind(9)]
+    fn c01_variant_roundtrip() {
+        let tag: u16 = 7;
+        let mut t = mk_thread(vec![Instr::ConstructVariant { tag }, Instr::DeconstructVariant, Instr::Stop], vec![], vec![]);
+        push_frame(&mut t, ValueTag::Int);
+        let payload = sym_val(ValueTag::Int);
+        t.value_stack.push(payload);
+        t.pc.0 = 0;
+        assert!(t.step());
+        assert!(t.value_stack.len() == FRAME + 1 && t.value_stack[FRAME].1 == ValueTag::Variant && t.heap_list.len() == 1);
+        let v = unsafe { &*(t.value_stack[FRAME].0 as *const EnumObject) };
+        assert!(v.tag == tag && v.val.0 == payload.0 && v.val.1 == payload.1, "variant holds tag and payload");
+        t.pc.0 = 1;
+        assert!(t.step());
+        // DeconstructVariant leaves payload below, tag (as int) on top
+        assert!(t.value_stack.len() == FRAME + 2);
+        assert!(t.value_stack[FRAME].0 == payload.0 && t.value_stack[FRAME].1 == payload.1, "payload below the tag");
+        assert!(t.value_stack[FRAME + 1].1 == ValueTag::Int && t.value_stack[FRAME + 1].0 == tag as u64, "tag on top");
+        kani::cover!(true, "req: success outcome reachable");
+        std::mem::forget(t);
+    }
+}
+vm_harness! {
+    #[kani::unwind(9)]
+    fn c01_deconstruct_variant_symbolic_tag() {
+        let mut t = mk_thread(vec![Instr::DeconstructVariant, Instr::Stop], vec![], vec![]);
+        let tag: u16 = kani::any();
+        let payload = sym_val(ValueTag::Float);
+        let v = EnumObject::new(tag, payload, &mut t);
+        push_frame(&mut t, ValueTag::Int);
+        t.value_stack.push(Value::from(v));
+        t.pc.0 = 0;
+        assert!(t.step());
+        assert!(t.value_stack.len() == FRAME + 2);
+        assert!(t.value_stack[FRAME].0 == payload.0 && t.value_stack[FRAME].1 == ValueTag::Float);
+        assert!(t.value_stack[FRAME + 1].1 == ValueTag::Int && t.value_stack[FRAME + 1].0 as i64 == tag as i64, "tag widened without sign change");
+        kani::cover!(tag >= 0x8000, "req: tag with the high bit set");
+        std::mem::forget(t);
+    }
+}
